@@ -103,6 +103,13 @@ def task(states):
                 s, nb = [int(v) for v in c["s"]], int(c["nb"])
                 # powers of two: the sum identifies exactly which elements were added
                 N = math.prod(s)
+                if N == 0:
+                    x = torch.zeros(*s, dtype=torch.float64)
+                    r = U.sum_except_batch(x, nb)
+                    eshape = s[:nb]
+                    if list(r.shape) != eshape or bool((r != 0).any()):
+                        fail("sum", "sum_except_batch(shape %s, num_batch_dims=%d) returned shape %s; documented shape %s (sums over nothing are 0)" % (s, nb, list(r.shape), eshape))
+                    continue
                 x = (2.0 ** torch.arange(N, dtype=torch.float64)).reshape(*s)
                 snap = [(x.clone(), x._version)]
                 r = U.sum_except_batch(x, nb)
@@ -146,6 +153,19 @@ def task(states):
                 exp = math.log(abs(det)) if det != 0 else -math.inf
                 if (det == 0 and float(r) != -math.inf) or (det != 0 and abs(float(r) - exp) > 1e-10):
                     fail("value", "logabsdet(%s) = %s, log|det| = %s" % (m.tolist(), float(r), exp))
+            elif f == "logabsdet_scaled":
+                n, cnum, cden = int(c["m"]["n"]), int(c["m"]["num"]), int(c["m"]["den"])
+                g = torch.Generator().manual_seed(n + cnum)
+                perm = torch.randperm(n, generator=g)
+                for dtype in (torch.float32, torch.float64):
+                    sign = torch.where(torch.arange(n) % 3 == 0, -1.0, 1.0).to(dtype)
+                    m = (torch.eye(n, dtype=dtype)[perm] * sign[None, :]) * (cnum / cden)
+                    snap = [(m.clone(), m._version)]
+                    r = U.logabsdet(m)
+                    unchanged([m], snap, "logabsdet")
+                    exp = int(spec["pow"]) * math.log(cnum / cden)
+                    if not math.isfinite(float(r)) or abs(float(r) - exp) > 1e-4 * max(1.0, abs(exp)):
+                        fail("value", "logabsdet(%g * signed permutation of size %d, %s) = %s, log|det| = %d log(%g) = %.6f" % (cnum / cden, n, str(dtype).split(".")[-1], float(r), n, cnum / cden, exp))
             elif f == "mask":
                 kind, feat = str(c["kind"]), int(c["feat"])
                 # Utils.tla gives the result as a function of the call alone: it does not depend on what
